@@ -257,7 +257,10 @@ PROPS["C04"] = dict(
          "(pipelined and lock-step), at every single cut point (all for short streams, a stride for long ones), sampled "
          "multi-cut, one byte per read, and cut short; mutated/raw streams; datagrams to dns, tftp, snmp, counterstrike, echo "
          "and memcached-udp from distinct sources through the dispatcher; each through the Lean framing machine / datagram "
-         "decoder with the same segments (dns, snmp: oracle only); oracle: events equal those of the same bytes in one piece and the list computed from the commands "
+         "decoder with the same segments (dns, snmp: oracle only); the one-request services elasticsearch, docker, eos, "
+         "ethereum, cwmp (seg1: one generated request per connection, body sizes around the 1024-byte recording limit, every "
+         "cut near the head/body boundary and a stride elsewhere, multi-cut, streams cut short) against the Lean one-request "
+         "machine, ipp and ldap message sequences as @req (oracle only); oracle: events equal those of the same bytes in one piece and the list computed from the commands "
          "as generated; non-trivial = at least one event; distinct = distinct case line",
     trusted=COMMON_TB + ["verif hook server/verif_hooks.go (VerifNew, VerifHandle)",
                          "scripted in-memory connection instead of a kernel socket (segment = what one Read returns)",
